@@ -27,7 +27,7 @@ CHECKS.update({
   text="Theorem C11_resume_equals_uninterrupted: for every payload a run emits (any iteration, or the forced final one) the resumed run returns exactly the uninterrupted output and a suffix of the checkpoint sequence - for every oracle and valid option record. The search resumes real runs from every (quick: sampled) payload through each route and from faults injected at user-call k and demands bit-identical results.",
   note=SMC_NOTE + " Pickle/HDF5 are identity oracles in the model (C12/C13 cover them); EmceeSMC excluded from bit-exact comparison (emcee's generator is unseeded by construction).", ref="DESIGN.md section 5 C11"),
  "C12": dict(technique="Coq proof of the checkpoint cadence of the loop model (any numeric instance) and of byte-exact blob replacement (Model/Blob.v); oracle replay of callback sequences; fault injection on real HDF5 files",
-  text="Theorems: callback invocations of a T-iteration run are exactly the iterations with every>0 and i mod every = 0, plus one forced final payload; each payload is the current loop state; write_blob old new = new for all sizes; after any prefix of the run's checkpoint writes the dataset is byte for byte the last payload of that prefix and always one whole payload (file_after). The search interrupts under one cadence and resumes under another, and interrupts real Aspire runs at user-call k and checks the file holds config, flow and byte-for-byte the last emitted payload, loadable.",
+  text="Theorems: callback invocations of a T-iteration run are exactly the iterations with every>0 and i mod every = 0, plus one forced final payload; each payload is the current loop state; write_blob old new = new for all sizes; after any prefix of the run's checkpoint writes the dataset is byte for byte the last payload of that prefix and always one whole payload (file_after); a run resumed from any payload under any option record (another cadence included) checkpoints exactly at the run's iteration numbers beyond the payload's that the cadence dictates, plus the forced final one (C12_cadence_of_a_resumed_run). The search interrupts under one cadence and resumes under another, and interrupts real Aspire runs at user-call k and checks the file holds config, flow and byte-for-byte the last emitted payload, loadable.",
   note=SMC_NOTE + " h5py dataset semantics are modelled (Model/Blob.v) and compared with real files; process-kill atomicity of HDF5 is outside the model.", ref="DESIGN.md section 5 C12"),
  "C18": dict(technique="Coq proof (inductive faithful-record relation over the loop, any numeric instance, any oracle) + C11 for resumed runs; oracle replay; mpmath recomputation of every recorded value from neighbouring stored populations",
   text="Theorems: every series has one entry per iteration; stored populations = initial :: population after each iteration; beta/ESS/ESS-at-1/ratio/variance/target entries equal their definitions on the neighbouring stored population; the same for resumed runs. The acceptance series is refuted (one extra entry with n_final_samples) and recorded as a known finding with a partial theorem.",
